@@ -282,7 +282,7 @@ def schema_plan(ctx, props, presets, trace=False):
     for pr in presets:
         cfg = "Gen_Schema_%s%s.cfg" % ("q" if ctx.quick else "t", pr)
         ctx.constants[cfg] = open(os.path.join(vcore.TLA, cfg)).read().split("SPECIFICATION")[0].split()
-        ctx.replay("Gen_Schema.tla", cfg, h, ["--props", ",".join(props)], tag=cfg[:-4], timeout=3400, xss="64m", xmx="12g")
+        ctx.replay("Gen_Schema.tla", cfg, h, ["--props", ",".join(props)], tag=cfg[:-4], timeout=3400 if ctx.quick else 9000, xss="64m", xmx="12g")
     ctx.exhaustive = True
     if trace:
         ntr = 12 if ctx.quick else 120
